@@ -13,6 +13,7 @@ import (
 	"path/filepath"
 	"sort"
 	"strings"
+	"sync"
 )
 
 type toothResult struct {
@@ -27,9 +28,10 @@ func runTeeth(prop string) []toothResult {
 	if os.Getenv("GOVC_REPO") != "" || os.Getenv("GOVC_NOTEETH") != "" {
 		return nil
 	}
+	type item struct{ name, patch string }
+	var items []item
 	dirs, _ := filepath.Glob(filepath.Join(verifRoot, "seeded", prop+"*"))
 	sort.Strings(dirs)
-	var out []toothResult
 	for _, d := range dirs {
 		base := filepath.Base(d)
 		if base != prop && !strings.HasPrefix(base, prop+"-") {
@@ -39,51 +41,96 @@ func runTeeth(prop string) []toothResult {
 		if _, err := os.Stat(patch); err != nil {
 			continue
 		}
-		tr := toothResult{Seed: base}
-		tmp, err := os.MkdirTemp("", "govc-teeth")
+		items = append(items, item{base, patch})
+	}
+	// my own breaking changes (selftest/break/*.diff, first line "# props: Cxx ...")
+	brk, _ := filepath.Glob(filepath.Join(verifRoot, "selftest", "break", "*.diff"))
+	sort.Strings(brk)
+	for _, f := range brk {
+		b, err := os.ReadFile(f)
 		if err != nil {
-			tr.Note = err.Error()
-			out = append(out, tr)
 			continue
 		}
-		func() {
-			defer os.RemoveAll(tmp)
-			work := filepath.Join(tmp, "tree")
-			// copy the tree under check as it is (working tree, not HEAD)
-			cp := exec.Command("rsync", "-a", "--exclude", ".git", repoRoot+"/", work+"/")
-			if b, err := cp.CombinedOutput(); err != nil {
-				tr.Note = "copy failed: " + string(b)
-				return
-			}
-			ap := exec.Command("git", "apply", "--unsafe-paths", "--directory="+work, patch)
-			ap.Dir = tmp
-			if b, err := ap.CombinedOutput(); err != nil {
-				// try plain patch
-				pp := exec.Command("patch", "-p1", "-s", "-i", patch)
-				pp.Dir = work
-				if b2, err2 := pp.CombinedOutput(); err2 != nil {
-					tr.Note = "seeded change does not apply to the tree under check: " + firstLines(string(b)+string(b2), 2)
-					return
-				}
-			}
-			tr.Applied = true
-			outDir := filepath.Join(tmp, "out")
-			c := exec.Command(os.Args[0], "check", prop, "--tier", "quick")
-			c.Env = append(os.Environ(), "GOVC_REPO="+work, "GOVC_OUT="+outDir, "GOVC_NOTEETH=1")
-			b, _ := c.CombinedOutput()
-			for _, l := range strings.Split(string(b), "\n") {
-				if strings.HasPrefix(l, "VIOLATION") {
-					tr.Violations++
-				}
-			}
-			tr.Reported = tr.Violations > 0
-		}()
-		if tr.Applied && !tr.Reported {
-			fmt.Printf("TEETH-LOST property=%s: seeded change %s is no longer reported by this check\n", prop, base)
-		} else if tr.Applied {
-			fmt.Printf("teeth: seeded change %s reported (%d obligations)\n", base, tr.Violations)
+		first := firstLines(string(b), 1)
+		if !strings.HasPrefix(first, "# props:") {
+			continue
 		}
-		out = append(out, tr)
+		for _, p := range strings.Fields(strings.TrimPrefix(first, "# props:")) {
+			if p == prop {
+				items = append(items, item{"break/" + strings.TrimSuffix(filepath.Base(f), ".diff"), f})
+			}
+		}
+	}
+	out := make([]toothResult, len(items))
+	workers := 3
+	if s := os.Getenv("GOVC_TEETH_JOBS"); s != "" {
+		fmt.Sscan(s, &workers)
+	}
+	if workers < 1 {
+		workers = 1
+	}
+	idx := make(chan int)
+	var wg sync.WaitGroup
+	for w := 0; w < workers; w++ {
+		wg.Add(1)
+		go func() {
+			defer wg.Done()
+			for k := range idx {
+				out[k] = runTooth(prop, items[k].name, items[k].patch)
+			}
+		}()
+	}
+	for k := range items {
+		idx <- k
+	}
+	close(idx)
+	wg.Wait()
+	for _, tr := range out {
+		if tr.Applied && !tr.Reported {
+			fmt.Printf("TEETH-LOST property=%s: seeded change %s is no longer reported by this check\n", prop, tr.Seed)
+		} else if tr.Applied {
+			fmt.Printf("teeth: seeded change %s reported (%d obligations)\n", tr.Seed, tr.Violations)
+		}
 	}
 	return out
+}
+
+func runTooth(prop, base, patch string) toothResult {
+	tr := toothResult{Seed: base}
+	tmp, err := os.MkdirTemp("", "govc-teeth")
+	if err != nil {
+		tr.Note = err.Error()
+		return tr
+	}
+	defer os.RemoveAll(tmp)
+	work := filepath.Join(tmp, "tree")
+	// copy the tree under check as it is (working tree, not HEAD)
+	cp := exec.Command("rsync", "-a", "--exclude", ".git", repoRoot+"/", work+"/")
+	if b, err := cp.CombinedOutput(); err != nil {
+		tr.Note = "copy failed: " + string(b)
+		return tr
+	}
+	ap := exec.Command("git", "apply", "--unsafe-paths", "--directory="+work, patch)
+	ap.Dir = tmp
+	if b, err := ap.CombinedOutput(); err != nil {
+		// try plain patch
+		pp := exec.Command("patch", "-p1", "-s", "-i", patch)
+		pp.Dir = work
+		if b2, err2 := pp.CombinedOutput(); err2 != nil {
+			tr.Note = "seeded change does not apply to the tree under check: " + firstLines(string(b)+string(b2), 2)
+			return tr
+		}
+	}
+	tr.Applied = true
+	outDir := filepath.Join(tmp, "out")
+	c := exec.Command(os.Args[0], "check", prop, "--tier", "quick")
+	c.Env = append(os.Environ(), "GOVC_REPO="+work, "GOVC_OUT="+outDir, "GOVC_NOTEETH=1")
+	b, _ := c.CombinedOutput()
+	for _, l := range strings.Split(string(b), "\n") {
+		if strings.HasPrefix(l, "VIOLATION") {
+			tr.Violations++
+		}
+	}
+	tr.Reported = tr.Violations > 0
+	return tr
 }
